@@ -18,10 +18,16 @@ def P(qr, qw, tr, tw, **kw):
 PLAN = {
     "C01": P(6000, 75, 200000, 900),
     "C02": P(5000, 75, 150000, 900),
+    "C04": P(1500, 100, 40000, 1200, chunk=150),
     "C03": P(2000, 90, 60000, 900),
 }
 
 LEVELS = {
+    "C04": {"level": "exploration", "rule": RULE,
+            "text": "seeded exploration of trees (0..2500 files, hostile names, nested dirs, sizes 0..3 leaves, duplicated contents, generated-path decoys and look-alikes) x upload modes (whole tree / explicit key lists with missing keys and skip-missing) x leaf sizes x upload/download/file-list concurrency, with the interleaving of the <=20 parallel file uploads, their leaf flushes and a concurrent unrelated uploader chosen by the tape; oracle: entries one-to-one with the files (size, BLAKE2b tree key), full / filtered / single-file download byte-identical, only .datamon metadata besides",
+            "note": "local disks are afero MemMapFs behind localfs (pass-through, not scheduled) in this scenario; trusts simstore",
+            "components": {"real": ["pkg/core upload/download/list", "pkg/cafs", "pkg/model", "pkg/storage/localfs"], "stub": STUB},
+            "assumptions": ["trees > 12 files use tiny files", "2000+ file trees only in the thorough tier"]},
     "C03": {"level": "fault_enumeration", "rule": RULE + "; the rot-enumerated scenario enumerates, per small object, every truncation length, one bit flip per byte, the deletion and every leaf-for-leaf replacement of every blob (count in probes.enumerated-corruptions)",
             "text": "bit-rot fault injection at rest: for objects of 1..6 leaves one blob (leaf or root) is flipped, truncated, extended, deleted, swapped with another leaf of the same or another object, or the root's key list is dropped/duplicated/reordered; then the object is read through Read, ReadAt, WriteTo(plain) and WriteTo(io.WriterAt) with cold and warm caches, and through a full bundle download; any call that reports success must have delivered exactly the stored bytes. For small objects the single-blob corruption classes are enumerated completely",
             "note": "a streaming sequential Read is judged as a whole (bytes handed out before the error of the same leaf are not counted as accepted); trusts simstore",
